@@ -8,7 +8,7 @@ CONSTANTS
   NCalls = 12
   NProg = 1
   Sample = FALSE
-  Wide = TRUE
+  Wide = FALSE
   Dump = TRUE
 INVARIANT NoDangling
 INVARIANT ModuleOK
